@@ -302,7 +302,7 @@ class RunId(object):
             self.benchmark.as_simple_string(),
             self.cores, self.input_size, self.var_value, self.tag)
 
-    def _expand_vars(self, string):
+    def _expand_vars(self, string, invocation='%(invocation)s'):
         try:
             return string % {'benchmark': self.benchmark.command,
                              'cores': self.cores_as_str,
@@ -312,7 +312,7 @@ class RunId(object):
 
                              # the invocation number needs to be set right before execution
                              # we don't know it here, and it would change the RunId identity
-                             'invocation': '%(invocation)s',
+                             'invocation': invocation,
                              'suite': self.benchmark.suite.name,
                              'variable': self.var_value_as_str,
                              'tag': self.tag_as_str,
@@ -337,12 +337,18 @@ class RunId(object):
         return self._construct_cmdline()
 
     def cmdline_for_next_invocation(self):
-        """Replace the invocation number in the command line"""
-        cmdline = self.cmdline() % {"invocation": self.completed_invocations + 1}
+        """The command line with the number of the next invocation"""
+        self.cmdline()  # make sure the identity string and the executable are set
+
+        # Expand the configured command line in a single step. Formatting the
+        # already expanded identity string a second time would misread every
+        # literal % that came from a %% or from a substituted value.
+        cmdline = self._expand_vars(self._cmdline_template(),
+                                    self.completed_invocations + 1).strip()
         cmdline = expand_user(cmdline, True)
         return cmdline
 
-    def _construct_cmdline(self):
+    def _cmdline_template(self):
         cmdline = ""
         if self.benchmark.suite.executor.path:
             cmdline = self.benchmark.suite.executor.path + "/"
@@ -357,7 +363,10 @@ class RunId(object):
         if self.benchmark.extra_args:
             cmdline += " " + str(self.benchmark.extra_args)
 
-        cmdline = self._expand_vars(cmdline)
+        return cmdline
+
+    def _construct_cmdline(self):
+        cmdline = self._expand_vars(self._cmdline_template())
 
         self._cmdline = cmdline.strip()
         self.executable = cmdline.split(" ")[0]
